@@ -89,7 +89,8 @@ def run_harness(run, exe, jobs_path, events_path, timeout=1800, env=None):
     p = subprocess.run([exe, "run", jobs_path, events_path], stdout=subprocess.PIPE,
                        stderr=subprocess.STDOUT, text=True, timeout=timeout, env=e)
     if p.returncode != 0:
-        raise Infra("harness failed (%d):\n%s" % (p.returncode, p.stdout[-4000:]))
+        head = "\n".join(p.stdout.splitlines()[:40])
+        raise Infra("harness failed (%d):\n%s\n...\n%s" % (p.returncode, head, p.stdout[-3000:]))
     return p.stdout
 
 def write_ndjson(path, recs):
